@@ -153,6 +153,8 @@ REL = "run/reloadable.go"
 RELOADER = "run/reloader.go"
 
 MUTANTS += [
+    M("c16-r6-orchestration-keys-never-assigned", "C16", "C16.R6", "run/config.go", "\torcKeys = keys\n\tstats.OrchestrationKeys = keys\n", "\tstats.OrchestrationKeys = keys\n", "a field listed in both orchestration keys and metricKeys: accepted, duplicate label panic at the first pipeline"),
+    B("c16-r6-benign-direct-keys", "C16", "run/config.go", "\tif err := checkMetricKeys(conf, schema, orcKeys); err != nil {", "\tif err := checkMetricKeys(conf, schema, keys); err != nil {", more=[("run/config.go", "\tvar orcKeys []string\n", ""), ("run/config.go", "\torcKeys = keys\n", "")]),
     # ---------------- C17
     M("c17-r1-revert-newsink-lock", "C17", "C17.R1", REL, "\tlockT := orc.downstreamMutex.RLock() // only read-lock since we assume clientNumber is unique and nobody else is accessing it\n\tdefer orc.downstreamMutex.RUnlock(lockT)\n\n\t// the downstream orchestrator must be accessed within the lock, or the new sink could belong to an orchestrator\n\t// which has been shut down by reloading in the meantime\n\tnewDownstream := orc.downstream.NewSink(clientAddress, clientNumber)\n",
       "\tnewDownstream := orc.downstream.NewSink(clientAddress, clientNumber)\n\n\tlockT := orc.downstreamMutex.RLock() // only read-lock since we assume clientNumber is unique and nobody else is accessing it\n\tdefer orc.downstreamMutex.RUnlock(lockT)\n", "SIGHUP between creating the sink and registering it: original defect D19"),
@@ -253,7 +255,7 @@ MUTANTS += [
     M("c12-r3-transient-label", "C12", "C12.R3", LPCS, "\t\t\tinputCounter:   NewLogInputCounter(pcounter.factory.AddOrGetPrefix(\"\", pcounter.metricKeyNames, permKeys)),", "\t\t\tinputCounter:   NewLogInputCounter(pcounter.factory.AddOrGetPrefix(\"\", pcounter.metricKeyNames, tempKeys)),", "label values change when the record buffer is recycled"),
     M("c12-r6-revert-timezone-key-copy", "C12", "C12.R6", RFC, "\t\t\ttimezoneCache[util.DeepCopyString(tzStr)] = location", "\t\t\ttimezoneCache[tzStr] = location", "lines > 1 KiB (pooled buffers) with zones of equal length: original defect D28", more=[(RFC, "\t\"time\"\n\n\t\"github.com/relex/slog-agent/util\"\n", "\t\"time\"\n")]),
     M("c12-r6-last-value-memo", "C13", "C12.R6", "transform/tparsetime/tparsetime.go", "\terrorCounter  func(length int)\n}", "\terrorCounter  func(length int)\n\tlastValue     string\n\tlastTime      time.Time\n}", "identical consecutive timestamps in pooled buffers: the memo key is overwritten by the next line", more=[("transform/tparsetime/tparsetime.go", "\tvalue := tf.keyLocator.Get(record.Fields)\n\ttm, err := parseRFC3339Timestamp(value, tf.timezoneCache)\n", "\tvalue := tf.keyLocator.Get(record.Fields)\n\tif value == tf.lastValue && len(value) > 0 {\n\t\trecord.Timestamp = tf.lastTime\n\t\treturn base.PASS\n\t}\n\ttm, err := parseRFC3339Timestamp(value, tf.timezoneCache)\n\tif err == nil {\n\t\ttf.lastValue, tf.lastTime = value, tm\n\t}\n")]),
-    B("c12-r6-benign-last-value-memo-copied", "C12", "transform/tparsetime/tparsetime.go", "\terrorCounter  func(length int)\n}", "\terrorCounter  func(length int)\n\tlastValue     string\n\tlastTime      time.Time\n}", more=[("transform/tparsetime/tparsetime.go", "\tvalue := tf.keyLocator.Get(record.Fields)\n\ttm, err := parseRFC3339Timestamp(value, tf.timezoneCache)\n", "\tvalue := tf.keyLocator.Get(record.Fields)\n\tif value == tf.lastValue && len(value) > 0 {\n\t\trecord.Timestamp = tf.lastTime\n\t\treturn base.PASS\n\t}\n\ttm, err := parseRFC3339Timestamp(value, tf.timezoneCache)\n\tif err == nil {\n\t\ttf.lastValue, tf.lastTime = strings.Clone(value), tm\n\t}\n"), ("transform/tparsetime/tparsetime.go", "import (\n\t\"fmt\"\n", "import (\n\t\"fmt\"\n\t\"strings\"\n")]),
+    B("c12-r6-benign-last-value-memo-copied", "C13", "transform/tparsetime/tparsetime.go", "\terrorCounter  func(length int)\n}", "\terrorCounter  func(length int)\n\tlastValue     string\n\tlastTime      time.Time\n}", more=[("transform/tparsetime/tparsetime.go", "\tvalue := tf.keyLocator.Get(record.Fields)\n\ttm, err := parseRFC3339Timestamp(value, tf.timezoneCache)\n", "\tvalue := tf.keyLocator.Get(record.Fields)\n\tif value == tf.lastValue && len(value) > 0 {\n\t\trecord.Timestamp = tf.lastTime\n\t\treturn base.PASS\n\t}\n\ttm, err := parseRFC3339Timestamp(value, tf.timezoneCache)\n\tif err == nil {\n\t\ttf.lastValue, tf.lastTime = strings.Clone(value), tm\n\t}\n"), ("transform/tparsetime/tparsetime.go", "import (\n\t\"fmt\"\n", "import (\n\t\"fmt\"\n\t\"strings\"\n")]),
     M("c12-r4-template-result-aliases-buffer", "C12", "C12.R4", STPL, "\treturn util.DeepCopyStringFromBytes(buf), buf[:0]\n", "\treturn util.StringFromBytes(buf), buf[:0]\n", "addFields with a multi-part template in an input's extractions: two records of one batch share the value"),
     M("c12-r7-template-result-aliases-buffer", "C12", "C12.R7", STPL, "\treturn util.DeepCopyStringFromBytes(buf), buf[:0]\n", "\treturn util.StringFromBytes(buf), buf[:0]\n", "same change, seen from the record side: the field stored by addFields is backed by the transform's buffer"),
     M("c12-r7-unsafe-in-transform", "C12", "C12.R7", "transform/tunescape/tunescape.go", "import (\n", "import (\n\t\"unsafe\"\n", "a private bytes-to-string alias invisible to the aliasing rules", more=[("transform/tunescape/tunescape.go", "var unescaper = bsupport.NewSyslogUnescaper()\n", "var unescaper = bsupport.NewSyslogUnescaper()\n\nvar _ = unsafe.Sizeof(0)\n")]),
@@ -262,6 +264,7 @@ MUTANTS += [
     B("c07-r3-benign-cut-before-clean", "C07", LPCS, "\t\t\tpermKeys[i] = strings.ToValidUTF8(key, \"\\uFFFD\")\n", "\t\t\tif len(key) > 256 {\n\t\t\t\tkey = key[:256]\n\t\t\t}\n\t\t\tpermKeys[i] = strings.ToValidUTF8(key, \"\\uFFFD\")\n"),
     M("c06-r6-lowercase-keys-for-id", "C06", "C06.R6", LCM, "\tgm.globalMutex.Lock()\n\tobj, found := gm.globalMap[mergedKey]\n", "\tfor i, k := range keys {\n\t\tkeys[i] = strings.ToLower(k)\n\t}\n\tgm.globalMutex.Lock()\n\tobj, found := gm.globalMap[mergedKey]\n", "key values differing only in case: routed to two pipelines, one tag and one queue directory", more=[(LCM, "import (\n\t\"strconv\"\n", "import (\n\t\"strconv\"\n\t\"strings\"\n")]),
     B("c06-r6-benign-read-only-loop", "C06", ORC, "\toutputTag := o.tagBuilder.Build(keys)\n", "\tfor i, key := range keys {\n\t\tif len(key) == 0 {\n\t\t\to.logger.Debugf(\"empty key value at %d\", i)\n\t\t}\n\t}\n\toutputTag := o.tagBuilder.Build(keys)\n"),
+    M("c15-r6-memo-keyed-by-seconds", "C13", "C15.R6", "transform/tparsetime/tparsetime.go", "\terrorCounter  func(length int)\n}", "\terrorCounter  func(length int)\n\tlastValue     string\n\tlastTime      time.Time\n}", "two records with the same second but different fractions or zones: the second gets the first one's instant", more=[("transform/tparsetime/tparsetime.go", "\tvalue := tf.keyLocator.Get(record.Fields)\n\ttm, err := parseRFC3339Timestamp(value, tf.timezoneCache)\n", "\tvalue := tf.keyLocator.Get(record.Fields)\n\tif len(value) >= 19 && value[:19] == tf.lastValue {\n\t\trecord.Timestamp = tf.lastTime\n\t\treturn base.PASS\n\t}\n\ttm, err := parseRFC3339Timestamp(value, tf.timezoneCache)\n\tif err == nil {\n\t\ttf.lastValue, tf.lastTime = strings.Clone(value[:19]), tm\n\t}\n"), ("transform/tparsetime/tparsetime.go", "import (\n\t\"fmt\"\n", "import (\n\t\"fmt\"\n\t\"strings\"\n")]),
     M("c12-r5-revert-rewriter-flag", "C12", "C10.R4", RUNESC, "\t// The record must not be marked as unescaped here: only the output is unescaped, not the field in the record,\n\t// which is to be serialized again for other outputs\n", "\trecord.Unescaped = true\n", "two outputs with an unescape rewriter: original defect D24"),
 ]
 
